@@ -30,6 +30,7 @@ import Rustic.Lemmas.RoundTrip
 import Rustic.Props.C06
 import Rustic.Lemmas.StorePipeline
 import Rustic.Lemmas.SnapshotArchive
+import Rustic.Lemmas.SnapshotLookup
 import Rustic.Lemmas.TreeIter
 import Rustic.Lemmas.Times
 namespace Rustic.Props.C01
@@ -420,6 +421,122 @@ theorem indexer_files_satisfy_hfiles (c : Cfg) (k : Conc) (s : PSt) (maxCount : 
   intro p
   rw [indexer_files_list_every_pack, List.map_fst_zip (by omega)]
 
+open Rustic.Snapshot Rustic.Tree in
+/-- (14) **Every listed path is found BY PATH and yields the listed node.**  `Tree::node_from_path` (`lookupPath`: per path
+component `Tree::from_backend` of the current subtree and a LINEAR search for the first node whose UN-ESCAPED name equals the
+component — the entry point of `snapshot:path`, `Repository::node_from_path`, `Vfs`, hence of dump / `read_file_at` / sub-path
+ls / sub-path restore) on ANY repository: if the restore walk below tree `id` reads the forest `forest` (sibling names pairwise
+different, as on every file system), then for EVERY entry `(path, t)` of its recursive listing the lookup succeeds — never "not
+found", never "not a directory" — and the node it returns is the node the walk restored `t` from: name, type, link target and
+metadata are `t`'s, its content ids assemble to `t`'s bytes, its subtree restores to `t`'s children.  Names are arbitrary bytes
+(quotes, backslashes, control characters, invalid UTF-8): the comparison is on un-escaped names, no order of the escaped
+strings is used. -/
+theorem path_lookup_finds_every_listed_entry (s : Str) (j : Ser) (getTree getData : Id → Option RoundTrip.Bytes)
+    (order : List Write → List Write) (fuel : Nat) (id : Id) (forest : List STree)
+    (hr : restoreTrees s j getTree getData order fuel id = some forest) (hd : DistinctL forest) :
+    ∀ pt ∈ pathsL forest, ∃ n k, lookupPath s j getTree id pt.1 = some n ∧
+      restoreNode getData order (restoreTrees s j getTree getData order k) n = some pt.2 := by
+  intro pt hpt
+  exact lookup_of_restore s j getTree getData order pt.1 fuel id forest (rootNode id) pt.2 rfl hr
+    (listed_foundL forest hd pt hpt)
+
+open Rustic.Store Rustic.Archive Rustic.Snapshot Rustic.Tree in
+/-- (15) (9) + (14): after a backup of `src` (hypotheses of `archive_restore`, sibling names pairwise different) every entry of
+the source is found by its path in the snapshot and reads back, through the node found, as the source entry. -/
+theorem archive_lookup_by_path (c : Cfg) (s : Str) (hs : StrOK s) (j : Ser) (chunks : RoundTrip.Bytes → List RoundTrip.Bytes)
+    (hch : ∀ d, (chunks d).flatten = d)
+    (src : List STree) (hwf : WFL src) (hwalk : WalkableL src) (hd : DistinctL src)
+    (o : Rustic.Parent.Opts) (load : Id → Option (List Node)) (a : ArchOut)
+    (ha : archive (fun nodes => c.hash (treeBytes s j nodes)) (fun d => (chunks d).map c.hash) List.length load
+      (fun _ => false) noTree o [] (treeItems (entriesL [] src)) = some a)
+    (k : Conc) (evs : List Ev)
+    (hr : RunOK c (a.treeAdds.map (fun t => (BT.tree, treeBytes s j t.2)) ++
+      (saveL (fun nodes => c.hash (treeBytes s j nodes)) c.hash chunks noTree src).chunks.map (fun ch => (BT.data, ch))) k evs)
+    (files : List Rustic.Index.IndexFile)
+    (hfiles : ∀ p, p ∈ Rustic.Index.unmarked files ↔ p ∈ indexedOf c k (finalizeAll (runEvs Rustic.Props.C07.init evs)))
+    (idx : Rustic.Index.Index) (hl : Rustic.Props.C17.Loaded .full files idx)
+    (order : List Write → List Write) (ho : ∀ l w, w ∈ order l ↔ w ∈ l) :
+    ∀ pt ∈ pathsL src, ∃ n fuel,
+      lookupPath s j (readBlob c idx (backendGet c (packsOf k (finalizeAll (runEvs Rustic.Props.C07.init evs)))) .tree)
+        a.root pt.1 = some n ∧
+      restoreNode (readBlob c idx (backendGet c (packsOf k (finalizeAll (runEvs Rustic.Props.C07.init evs)))) .data) order
+        (restoreTrees s j
+          (readBlob c idx (backendGet c (packsOf k (finalizeAll (runEvs Rustic.Props.C07.init evs)))) .tree)
+          (readBlob c idx (backendGet c (packsOf k (finalizeAll (runEvs Rustic.Props.C07.init evs)))) .data) order fuel) n
+        = some pt.2 :=
+  path_lookup_finds_every_listed_entry s j _ _ order _ a.root src
+    (archive_restore c s hs j chunks hch src hwf hwalk o load a ha k evs hr files hfiles idx hl order ho) hd
+
+open Rustic.Store Rustic.Archive Rustic.Snapshot Rustic.Tree in
+/-- (15') (10) + (14): the same for a backup INTO a repository that already holds data — entries whose chunks / trees were not
+uploaded because the index knew them are found by path as well and read back from the old packs. -/
+theorem archive_lookup_by_path_incremental (c : Cfg) (s : Str) (hs : StrOK s) (j : Ser)
+    (chunks : RoundTrip.Bytes → List RoundTrip.Bytes) (hch : ∀ d, (chunks d).flatten = d)
+    (src : List STree) (hwf : WFL src) (hwalk : WalkableL src) (hd : DistinctL src)
+    (old : List BuiltPack) (oldFiles : List Rustic.Index.IndexFile)
+    (hold : RepoOK c old (Rustic.Index.unmarked oldFiles))
+    (m : Rustic.Index.IndexType) (idxOld : Rustic.Index.Index) (hlOld : Rustic.Props.C17.Loaded m oldFiles idxOld)
+    (o : Rustic.Parent.Opts) (load : Id → Option (List Node)) (a : ArchOut)
+    (ha : archive (fun nodes => c.hash (treeBytes s j nodes)) (fun d => (chunks d).map c.hash) List.length load
+      (idxOld.has .data) (idxOld.has .tree) o [] (treeItems (entriesL [] src)) = some a)
+    (k : Conc) (evs : List Ev)
+    (hr : RunOK c (a.treeAdds.map (fun t => (BT.tree, treeBytes s j t.2)) ++
+      ((saveL (fun nodes => c.hash (treeBytes s j nodes)) c.hash chunks (idxOld.has .tree) src).chunks.filter
+        (fun ch => !idxOld.has .data (c.hash ch))).map (fun ch => (BT.data, ch))) k evs)
+    (hids : ∀ q ∈ old, ∀ p, q.id ≠ k.packId p)
+    (hcoll : ∀ q ∈ old, ∀ x ∈ q.adds, ∀ y : RoundTrip.Bytes, c.hash x.data = c.hash y → x.data = y)
+    (files : List Rustic.Index.IndexFile)
+    (hfiles : ∀ p, p ∈ Rustic.Index.unmarked files ↔ p ∈ Rustic.Index.unmarked oldFiles ∨
+      p ∈ indexedOf c k (finalizeAll (runEvs Rustic.Props.C07.init evs)))
+    (idx : Rustic.Index.Index) (hl : Rustic.Props.C17.Loaded .full files idx)
+    (order : List Write → List Write) (ho : ∀ l w, w ∈ order l ↔ w ∈ l) :
+    ∀ pt ∈ pathsL src, ∃ n fuel,
+      lookupPath s j (readBlob c idx (backendGet c (old ++ packsOf k (finalizeAll (runEvs Rustic.Props.C07.init evs)))) .tree)
+        a.root pt.1 = some n ∧
+      restoreNode (readBlob c idx (backendGet c (old ++ packsOf k (finalizeAll (runEvs Rustic.Props.C07.init evs)))) .data) order
+        (restoreTrees s j
+          (readBlob c idx (backendGet c (old ++ packsOf k (finalizeAll (runEvs Rustic.Props.C07.init evs)))) .tree)
+          (readBlob c idx (backendGet c (old ++ packsOf k (finalizeAll (runEvs Rustic.Props.C07.init evs)))) .data) order fuel) n
+        = some pt.2 :=
+  path_lookup_finds_every_listed_entry s j _ _ order _ a.root src
+    (archive_restore_incremental c s hs j chunks hch src hwf hwalk old oldFiles hold m idxOld hlOld o load a ha k evs hr hids hcoll
+      files hfiles idx hl order ho) hd
+
+open Rustic.Store Rustic.Snapshot Rustic.Tree in
+/-- (15'') (11) + (14): by-path access does not depend on how the repository stores the blobs either (any key, compression,
+pack sizes, duplicates, index split — e.g. the destination of a copy, a pruned or repacked repository). -/
+theorem lookup_by_path_from_any_repository (c : Cfg) (s : Str) (hs : StrOK s) (j : Ser)
+    (chunks : RoundTrip.Bytes → List RoundTrip.Bytes) (hch : ∀ d, (chunks d).flatten = d)
+    (src : List STree) (hwf : WFL src) (hd : DistinctL src)
+    (packs : List BuiltPack) (files : List Rustic.Index.IndexFile) (hok : RepoOK c packs (Rustic.Index.unmarked files))
+    (idx : Rustic.Index.Index) (hl : Rustic.Props.C17.Loaded .full files idx)
+    (hroot : ∃ q ∈ packs, q.tpe = .tree ∧ ∃ x ∈ q.adds,
+      x.data = treeBytes s j (saveL (fun nodes => c.hash (treeBytes s j nodes)) c.hash chunks noTree src).nodes)
+    (htrees : ∀ p ∈ (saveL (fun nodes => c.hash (treeBytes s j nodes)) c.hash chunks noTree src).trees,
+      ∃ q ∈ packs, q.tpe = .tree ∧ ∃ x ∈ q.adds, x.data = treeBytes s j p.2)
+    (hdata : ∀ ch ∈ (saveL (fun nodes => c.hash (treeBytes s j nodes)) c.hash chunks noTree src).chunks,
+      ∃ q ∈ packs, q.tpe = .data ∧ ∃ x ∈ q.adds, x.data = ch)
+    (order : List Write → List Write) (ho : ∀ l w, w ∈ order l ↔ w ∈ l) :
+    ∀ pt ∈ pathsL src, ∃ n fuel,
+      lookupPath s j (readBlob c idx (backendGet c packs) .tree)
+        (c.hash (treeBytes s j (saveL (fun nodes => c.hash (treeBytes s j nodes)) c.hash chunks noTree src).nodes)) pt.1 = some n ∧
+      restoreNode (readBlob c idx (backendGet c packs) .data) order
+        (restoreTrees s j (readBlob c idx (backendGet c packs) .tree) (readBlob c idx (backendGet c packs) .data) order fuel) n
+        = some pt.2 :=
+  path_lookup_finds_every_listed_entry s j _ _ order _ _ src
+    (restore_from_any_repository c s hs j chunks hch src hwf packs files hok idx hl hroot htrees hdata order ho) hd
+
+open Rustic.Snapshot in
+/-- (16) why the lookup must not search the ESCAPED names by bisection (seeded change C01-5): trees are sorted by the un-escaped
+name; escaping inserts `\` (0x5c), so the escaped names of the byte-sorted directory `a!`, `a"z`, `a#` are NOT sorted and a
+binary search for the plain name `a#` misses it, while the linear search of `lookupStep` finds it at index 2. -/
+theorem binary_search_on_escaped_names_misses :
+    let names : List (List Item) := [[.ch 'a', .ch '!'], [.ch 'a', .ch '"', .ch 'z'], [.ch 'a', .ch '#']]
+    let esc := names.map escape
+    bsearch esc.toArray (escape [.ch 'a', .ch '#']) 3 0 3 = none ∧
+    esc.findIdx? (· == escape [.ch 'a', .ch '#']) = some 2 := by
+  decide
+
 /-- (13) **Restored times are exact.**  The `timespec` `LocalDestination::set_times` writes for a snapshot timestamp (jiff:
 seconds truncated toward zero, sub-second part with the sign of the instant) denotes exactly the same instant, in normal form
 (whole seconds rounded down, nanoseconds in `[0, 10^9)`) — before and after the epoch, with any sub-second part — and reading
@@ -494,6 +611,12 @@ open Rustic.Snapshot Rustic.Tree in
 example : WFL toySrc ∧ WalkableL toySrc ∧ depthL toySrc = 2 ∧ (treeItems (entriesL [] toySrc)).length = 6 ∧
     (saveL (fun ns => ns.length) (fun b => b.length) (fun d => [d]) noTree toySrc).trees.map (·.2.length) = [0, 2] := by
   refine ⟨by simp [toySrc, WFL, STree.WF], by simp [toySrc, WalkableL, STree.Walkable, Node.isDir], by decide, by decide, by decide⟩
+
+open Rustic.Snapshot Rustic.Tree in
+/-- the toy forest has pairwise different sibling names; its listing has four paths, each resolved to its own entry -/
+example : DistinctL toySrc ∧ (pathsL toySrc).map (·.1) = [[[97]], [[98]], [[98], [0xff]], [[98], [99]]] ∧
+    (pathsL toySrc).all (fun pt => (findL toySrc pt.1).map (·.node.name) == some pt.2.node.name) = true := by
+  refine ⟨by simp [toySrc, DistinctL, STree.Distinct, STree.node], by decide, by decide⟩
 
 /-- the indexer flushing after every 3 blobs and once by age: three index files, every pack listed once -/
 example :
